@@ -478,3 +478,45 @@ func TestC19RegressDocValueHeader(t *testing.T) {
 		}
 	}
 }
+
+// F16: an Advance target beyond the 32-bit document number space must end the
+// iteration (no posting is at or after it) on every path; the flag-less clean
+// path and the exclusion path truncated the target to its low 32 bits.
+func TestC05RegressAdvanceBeyond32(t *testing.T) {
+	b := Batch{}
+	for i := 0; i < 8; i++ {
+		b = append(b, Doc{Fields: []Field{{Name: "a", Len: 1, Terms: []Term{{T: "t", Freq: 1}}}}})
+	}
+	seg := mustBuild(t, b, 1025)
+	d, err := seg.Dictionary("a")
+	if err != nil {
+		t.Fatal(err)
+	}
+	for _, except := range []*roaring.Bitmap{nil, roaring.BitmapOf(1)} {
+		for _, flags := range []bool{false, true} {
+			for _, target := range []uint64{1 << 32, 1<<32 + 5, 3<<32 + 2, 1 << 63} {
+				pl, err := d.PostingsList([]byte("t"), except, nil)
+				if err != nil {
+					t.Fatal(err)
+				}
+				it, err := pl.Iterator(flags, flags, flags, nil)
+				if err != nil {
+					t.Fatal(err)
+				}
+				if p, err := it.Next(); err != nil || p == nil || p.Number() != 0 {
+					t.Fatalf("first Next: %v %v", p, err)
+				}
+				p, err := it.Advance(target)
+				if err != nil {
+					t.Fatal(err)
+				}
+				if p != nil {
+					t.Fatalf("F16: except=%v flags=%v: Advance(%d) returned posting %d, expected the end", except, flags, target, p.Number())
+				}
+				if p, err = it.Next(); err != nil || p != nil {
+					t.Fatalf("F16: except=%v flags=%v: Next after the end returned %v, %v", except, flags, p, err)
+				}
+			}
+		}
+	}
+}
